@@ -146,3 +146,142 @@ def run_summary_injected(ns, alpha=0.9):
             raise ValueError(f"national summary value not integral with integer weights: {out}")
         vals.append(int(round(v)))
     return {"kind": "ok", "pred": vals[0], "lower": vals[1], "upper": vals[2]}
+
+
+# ----------------------------------------------------------------------------------------------------------------
+# C06: ranks, bounds, client tables
+
+
+def ranks_record(B):
+    m = new_model(B=B)
+    rl, ru = [], []
+    for A in range(1, 1000):
+        lq, uq = m._get_quantiles(A / 1000)
+        rl.append(int(round(float(lq) * B)))
+        ru.append(int(round(float(uq) * B)))
+    return {"kind": "ranks", "B": B, "rl": rl, "ru": ru}
+
+
+def sgn_scaled(x, scale):
+    v = int(round(float(x) * scale))
+    if v == 0 and float(x) != 0.0:
+        v = 1 if x > 0 else -1
+    return v
+
+
+def bounds_record(p, xs, levels, rnd):
+    """p, xs integers (thousandths for the aggregate, arbitrary units for the unit).  xs is passed shuffled."""
+    draws = list(xs)
+    rnd.shuffle(draws)
+    obs = []
+    model = inject(new_model(B=len(draws)), [p], [draws])
+    for A in levels:
+        pi = model.get_unit_prediction_intervals(None, None, A / 1000, "margin")
+        ulo, uhi = float(np.asarray(pi.lower).flatten()[0]), float(np.asarray(pi.upper).flatten()[0])
+        df, out, _ = run_top_level(["AA"], [p], [draws], alphas=(A / 1000,))
+        alo, ahi = out[A / 1000][0][0], out[A / 1000][1][0]
+        obs.append({"ulo": int(round(ulo)), "uhi": int(round(uhi)), "alo": sgn_scaled(alo, 1e6), "ahi": sgn_scaled(ahi, 1e6)})
+        if abs(ulo - round(ulo)) > 1e-9 or abs(uhi - round(uhi)) > 1e-9:
+            raise ValueError("unit bounds are not whole numbers")
+    return {"kind": "bounds", "p": p, "xs": sorted(xs), "levels": list(levels), "obs": obs}
+
+
+def _tok(vals):
+    import hashlib
+
+    return hashlib.sha1("|".join(float(v).hex() for v in vals).encode()).hexdigest()[:12]
+
+
+def client_record(seed, with_lists=True):
+    """A real bootstrap client run (random election/configuration) with call / stop lists, and the same run
+    without lists for the 'untouched rows are unchanged' clause."""
+    import random as _r
+
+    from harness import synth
+
+    rnd = _r.Random(seed)
+    district = rnd.random() < 0.35
+    states = ("AA", "BB", "CC") if rnd.random() < 0.6 else ("AA", "BB", "CC", "DD")
+    n = rnd.choice([48, 60, 72])
+    pre, cur = synth.make_election(n=n, states=states, seed=seed, district=district, frac_reporting=rnd.choice([0.5, 0.7, 0.85]), thr=100)
+    pre = synth.with_margin_features(pre)
+    stress = rnd.random() < 0.4
+    if stress:
+        # a few outstanding units far outside the covariate range of the reporting units: the regression
+        # extrapolates their margin / turnout factor far beyond the admissible ranges, which the clips must contain
+        # make the margin depend strongly on x1 (so that its coefficient is large)
+        x1 = pre.set_index("geographic_unit_fips").x1.reindex(cur.geographic_unit_fips).to_numpy()
+        two = (cur.results_dem + cur.results_gop).to_numpy().astype(float)
+        share = np.clip(np.divide(cur.results_dem.to_numpy(), np.maximum(two, 1)) + 0.12 * x1, 0.02, 0.98)
+        cur["results_dem"] = np.round(two * share).astype(int)
+        cur["results_gop"] = (two - cur["results_dem"]).astype(int)
+        nonrep = cur[cur.percent_expected_vote < 100].geographic_unit_fips.tolist()
+        far = set(rnd.sample(nonrep, min(len(nonrep), 4)))
+        pre.loc[pre.geographic_unit_fips.isin(far), "x1"] = [rnd.choice([-60.0, 60.0]) for _ in range(int(pre.geographic_unit_fips.isin(far).sum()))]
+    office = "H" if district else "G"
+    gut = "precinct-district" if district else "precinct"
+    aggs = ["postal_code", "county_fips"] if not district else ["postal_code", "district", "county_fips"]
+    if rnd.random() < 0.4:
+        aggs.append("county_classification")
+    rnd.shuffle(aggs)
+    mp = {"B": rnd.choice([2, 3, 10, 40])}
+    lam = rnd.choice([0, 1.0, None])
+    if lam is not None:
+        mp["lambda_"] = lam
+    fe = rnd.choice([{}, {}, {"county_classification": "all"}, {"postal_code": "all"}])
+    alphas = sorted(rnd.sample([0.5, 0.7, 0.9, 0.95, 0.99], rnd.choice([2, 3])))
+    if district:
+        contests = sorted({f"{r.postal_code}_{r.district}" for r in pre.itertuples()})
+    else:
+        contests = list(states)
+    lhs = rhs = stop = []
+    if with_lists:
+        roles = {c: rnd.choice(["L", "R", "N", "N", "N"]) for c in contests}
+        lhs = [c for c in contests if roles[c] == "L"]
+        rhs = [c for c in contests if roles[c] == "R"]
+        stop = [c for c in contests if rnd.random() < 0.25]
+    kw = dict(estimands=("margin",), pi_method="bootstrap", features=("baseline_normalized_margin", "x1"), office=office, gut=gut,
+              aggregates=aggs + ["unit"], model_parameters=mp, pis=alphas, fixed_effects=fe)
+    c1, res1 = synth.run_client(pre, cur, lhs_called_contests=lhs, rhs_called_contests=rhs, stop_model_call=stop, **kw)
+    c0, res0 = synth.run_client(pre, cur, **kw)
+    level_of = {"state_data": "postal_code", "district_data": "district", "county_data": "county_fips", "classification_data": "county_classification"}
+    order = ["postal_code", "district", "county_classification", "county_fips"]
+    groups = []
+    for tname, df in res1.items():
+        if tname == "unit_data":
+            continue
+        lv = level_of[tname]
+        keys = [k for k in order if k in ({"postal_code", lv} | ({"district"} if district else set()))]
+        top = keys == (["postal_code", "district"] if district else ["postal_code"])
+        base = res0[tname].set_index(keys)
+        for _, r in df.iterrows():
+            key = tuple(r[k] for k in keys)
+            ikey = key if len(keys) > 1 else key[0]
+            cols = ["pred_margin", "results_margin", "pred_turnout"] + [f"{b}_{a}_margin" for a in alphas for b in ("lower", "upper")]
+            same = ikey in base.index and _tok([r[c] for c in cols]) == _tok([base.loc[ikey][c] for c in cols])
+            groups.append(
+                {
+                    "table": tname,
+                    "name": "_".join(str(x) for x in key),
+                    "top": bool(top),
+                    "pred": sgn_scaled(r["pred_margin"], 1e6),
+                    "lower": [sgn_scaled(r[f"lower_{a}_margin"], 1e6) for a in alphas],
+                    "upper": [sgn_scaled(r[f"upper_{a}_margin"], 1e6) for a in alphas],
+                    "turnout": sgn_scaled(r["pred_turnout"], 1000),
+                    "same": bool(same),
+                }
+            )
+    units = []
+    for _, r in res1["unit_data"].iterrows():
+        final = int(r["reporting"]) == 1 or str(r["unit_category"]) != "expected"
+        units.append(
+            {
+                "pred": sgn_scaled(r["pred_margin"], 1000),
+                "lower": [sgn_scaled(r[f"lower_{a}_margin"], 1000) for a in alphas],
+                "upper": [sgn_scaled(r[f"upper_{a}_margin"], 1000) for a in alphas],
+                "turnout": sgn_scaled(r["pred_turnout"], 1000),
+                "final": bool(final),
+            }
+        )
+    return {"kind": "client", "lhs": lhs, "rhs": rhs, "stop": stop, "alphas": alphas, "district": district, "B": mp["B"],
+            "lambda": "cv" if lam is None else lam, "stress": stress, "groups": groups, "units": units}
